@@ -10,7 +10,13 @@ Inductive c18_case :=
 | RoleCase (k : kind) (r : role) (proxy : bool) (l : reach) (obs : effects)
 | SchedCase (leader0 frev0 : N) (ls : list label) (a b : tobs) (sets : list (N * N))    (* sets: (value before, value written) *)
 | OverlapCase (r : N) (l : reach) (b_resp : rclass) (sets : list N) (a_scan : N) (a_nonempty : bool)
-| FollowCase (m : rmode) (v : revsel) (r1 r2 : N) (sets : list N) (hdr2 : N).   (* second read after the leader moved from r1 to r2 *)
+| FollowCase (m : rmode) (v : revsel) (r1 r2 : N) (sets : list N) (hdr2 : N)    (* second read after the leader moved from r1 to r2 *)
+(* a node wins the election (real server.NewServer, real Campaign); [version] = the lock version it installs.
+   At the instant its SetCurrentRevision(version) is entered: what its /status answers ([mid_status] = Some rev on 200)
+   and what a follower's List through it returns ([mid_list] = None on error, Some has_k1 otherwise, k1 having been
+   committed by the old leader before).  Afterwards: the revision of its first 200 answer, and whether the
+   follower's List then holds k0 and k1. *)
+| TakeoverCase (old version : N) (mid_status : option N) (mid_list : option bool) (first_rev : N) (post_complete : bool).
 
 Definition rclass_eqb (a b : rclass) : bool :=
   match a, b with
@@ -51,6 +57,11 @@ Definition c18_check (c : c18_case) : bool :=
       && list_eqb pair_eqb (map (fun x => match x with (_, before, v) => (before, v) end) (i_sets s)) sets
   | FollowCase m v r1 r2 sets hdr2 =>
       let '(ss, h) := follow_model r1 r2 in list_eqb N.eqb ss sets && (h =? hdr2)
+  | TakeoverCase old version mid_status mid_list first_rev post_complete =>
+      (* the instant is phase TkInstalling; the first 200 answer is phase TkLeading *)
+      opt_eqb N.eqb mid_status (if tk_flag TkInstalling then Some (tk_revision TkInstalling old version) else None)
+      && opt_eqb Bool.eqb mid_list (match f_backend (tk_peer_read TkInstalling old version) with BRead => Some (version <=? tk_revision TkInstalling old version) | _ => None end)
+      && (first_rev =? tk_revision TkLeading old version) && post_complete
   | OverlapCase r l b_resp sets a_scan a_nonempty =>
       let '(br, ss, sc) := overlap_model r l in
       rclass_eqb br b_resp && list_eqb N.eqb ss sets && (sc =? a_scan) && Bool.eqb (0 <? sc) a_nonempty
@@ -117,6 +128,12 @@ Definition c18_oracle (c : c18_case) : option N :=
       else if existsb (fun x => snd x <? fst x) sets then Some F_set_race
       else if (negb (tobs_fresh a) && tobs_joined a) || (negb (tobs_fresh b) && tobs_joined b) then Some F_shared_flight
       else Some 0
+  | TakeoverCase old version mid_status mid_list first_rev post_complete =>
+      (* a node that answers /status as leader has installed the lock version; a follower's read through it fails
+         or reflects what the old leader had committed *)
+      ok_if (match mid_status with Some r => version <=? r | None => true end
+             && match mid_list with Some has_k1 => has_k1 | None => true end
+             && (version <=? first_rev) && post_complete)
   | FollowCase m v r1 r2 sets hdr2 =>
       (* the second read began when the leader had committed r2: it must adopt r2 and answer at >= r2 *)
       ok_if (match rev sets with s :: _ => s =? r2 | [] => false end && (r2 <=? hdr2))
